@@ -435,7 +435,7 @@ func checkRT(prop, tier string) int {
 		if unknown > 6 {
 			continue
 		}
-		dir := filepath.Join(verifDir, "replays", prop)
+		dir := filepath.Join(replayDir(), prop)
 		os.MkdirAll(dir, 0o755)
 		path := filepath.Join(dir, fmt.Sprintf("%d-%s.json", seed, sanitize(v.Key)))
 		if err := os.WriteFile(path, append(pb, '\n'), 0o644); err != nil {
@@ -570,4 +570,3 @@ func replayFileRT(path, prop string) int {
 	return 1
 }
 
-func selftest(args []string) int { die2("selftest not built yet"); return 2 }
